@@ -86,9 +86,18 @@ def _key_norm(arg: Sym) -> Sym:
     return a
 
 
+# optional unfolding of a sizer call whose dispatch arguments are constants (set by the rule that owns the source model):
+# callback(name, args, kwargs) -> integer expression equal to the call, or None
+UNFOLD = None
+
+
 def sizer_call(name: str, args: Tuple[Sym, ...], kw: Tuple[Tuple[str, Sym], ...]) -> Sym:
     if name == "size_varint" and len(args) == 1:
         return ("call", N(name), (_key_norm(L_value(args[0])),), ())
+    if UNFOLD is not None:
+        r = UNFOLD(name, args, kw)
+        if r is not None:
+            return size_term(r)
     # defaults made explicit so that omitted == default
     kwd = dict(kw)
     if name in ("_len_single",):
@@ -101,6 +110,12 @@ def L_value(s: Sym) -> Sym:
     """normalise an *integer* term that may contain len(...) sub-terms"""
     if s[0] == "call" and s[1] == N("len") and len(s[2]) == 1:
         r = L(s[2][0])
+        if r[0] == "sum" and len(r[1]) == 1:
+            return r[1][0]
+        return r
+    if (s[0] == "op" and s[1] == "+") or (s[0] == "call" and dotted(s[1]) in SIZERS):
+        # a sum of sizes written out by hand is the same integer as the length of the concatenation
+        r = size_term(s)
         if r[0] == "sum" and len(r[1]) == 1:
             return r[1][0]
         return r
